@@ -1,4 +1,5 @@
 import NibabelModel.Model.C16
+import NibabelModel.Model.C16_Save
 import NibabelModel.Generated.C16
 import NibabelModel.Lemmas.C16_Digits
 import NibabelModel.Lemmas.C16_Tck
@@ -12,6 +13,7 @@ import NibabelModel.Lemmas.C16_Aff
 import NibabelModel.Lemmas.C16_ByteOrder
 import NibabelModel.Lemmas.C16_Pending
 import NibabelModel.Lemmas.C16_HdrParse
+import NibabelModel.Lemmas.C16_Save
 /-! Props/C16 — property theorems for C16 (tractograms round-trip through TRK and TCK in RAS+ mm).
     Statements about the TCK header arithmetic are about the definitions REGENERATED from the source
     (`Gen.*`, Generated/C16.lean). -/
@@ -806,5 +808,213 @@ theorem position_restored_src (start : Nat) (acts : List Act) :
 example : ((FGen.init (⟨[((1 : Nat), 40), (2, 52)], none, 64⟩ : GenRun Nat) seekFixed 7).runActs [.next, .close]).pos = 7 ∧
     ((FGen.init (⟨[((1 : Nat), 40), (2, 52)], none, 64⟩ : GenRun Nat) seekOrig 7).runActs [.next, .close]).pos = 40 := by
   decide
+
+/-! ### The header handed to `save` -/
+
+/-- **The fields `save` writes are a function of the tractogram only.**  For every two supplied headers
+    `sup`, `sup'` (whatever counts `nb_streamlines` / `nb_scalars_per_point` /
+    `nb_properties_per_streamline` and whatever ten-slot `scalar_name` / `property_name` tables they carry —
+    a fresh dict, the header of a previously LOADED file with more, fewer or other names, stale counts) and
+    every non-empty tractogram, `TrkFile.save` produces the same counts, the same two name tables and the
+    same data words; the tables are exactly `nameTable` of the first item's (sorted) names — ALL ten slots,
+    trailing ones zero — and the streamline count is the number of items. -/
+theorem saved_names_from_tractogram (sup sup' : TrkCounts) (first : Item) (rest : List Item) :
+    trkSaveItemsH sup (first :: rest) = trkSaveItemsH sup' (first :: rest) ∧
+    ∀ h words, trkSaveItemsH sup (first :: rest) = .ok (h, words) →
+      nameTable (first.dpp.map (fun d => (d.1, (d.2.headD []).length))) = .ok h.scalarFields ∧
+      nameTable (first.dps.map (fun d => (d.1, d.2.length))) = .ok h.propFields ∧
+      h.nStreams = (first :: rest).length := by
+  refine ⟨by rw [trkSaveItemsH_cons, trkSaveItemsH_cons], ?_⟩
+  intro h words hs
+  rw [trkSaveItemsH_cons] at hs
+  unfold trkSaveItems at hs
+  simp only at hs
+  split at hs
+  · cases hs
+  · rename_i pf hpf
+    split at hs
+    · cases hs
+    · rename_i sf hsf
+      split at hs
+      · cases hs
+      · rename_i recs _
+        split at hs
+        · cases hs
+        · rename_i hc hhc
+          injection hs with hs
+          injection hs with h1 _
+          subst h1
+          unfold trkHeaderCounts at hhc
+          simp only at hhc
+          split at hhc
+          · cases hhc
+          · split at hhc
+            · cases hhc
+            · split at hhc
+              · cases hhc
+              · injection hhc with hhc
+                subst hhc
+                exact ⟨hsf, hpf, rfl⟩
+
+/-- **TRK round trip under EVERY supplied header** (strengthens `trk_roundtrip`, which is the case of a
+    header without name tables): under the hypotheses of `trk_roundtrip`, for every supplied header `sup`,
+    `save` succeeds and `load` of what was written returns exactly the saved items — same data under the same
+    names and NO other names; for a non-empty tractogram the written tables are those of the tractogram.
+    (Empty tractogram: the stale tables stay in the file but both counts are zero, so `load` — which consults
+    a table only when its count is positive — returns no names.) -/
+theorem trk_roundtrip_any_header (sup : TrkCounts) (pcols scols : List (Name × Nat)) (items : List Item)
+    (sf pf : List (List Nat)) (hp : SchemaOk pcols) (hs : SchemaOk scols)
+    (hsf : nameTable pcols = .ok sf) (hpf : nameTable scols = .ok pf)
+    (hw : ∀ it ∈ items, it.WF pcols scols) :
+    ∃ h words, trkSaveItemsH sup items = .ok (h, words) ∧ h.nStreams = items.length ∧
+      trkLoadItems h words = .ok items ∧
+      (items ≠ [] → h.scalarFields = sf ∧ h.propFields = pf) := by
+  cases items with
+  | nil =>
+    refine ⟨⟨0, 0, 0, sup.scalarFields, sup.propFields⟩, [], rfl, rfl, ?_, by simp⟩
+    have hr := trk_records_roundtrip 0 0 0 [] (by simp) 0 (Or.inl rfl)
+    simp only [trkDataWords, List.map_nil, List.flatten_nil] at hr
+    have hi : (trkRead 0 0 0 0 []).items = [] := List.map_eq_nil_iff.mp hr.1
+    simp [trkLoadItems, nameSlices, hr.2, hi]
+  | cons first rest =>
+    obtain ⟨h, words, h1, h2, h3⟩ := trk_roundtrip pcols scols (first :: rest) sf pf hp hs hsf hpf hw
+    refine ⟨h, words, by rw [trkSaveItemsH_cons]; exact h1, h2, h3, fun _ => ?_⟩
+    have hn := (saved_names_from_tractogram sup sup first rest).2 h words (by rw [trkSaveItemsH_cons]; exact h1)
+    obtain ⟨hn', _, hm, hsd⟩ := hw first (by simp)
+    have e1 : first.dpp.map (fun d => (d.1, (d.2.headD []).length)) = pcols := hm.head hn'
+    have e2 : first.dps.map (fun d => (d.1, d.2.length)) = scols := hsd
+    rw [e1, hsf] at hn
+    rw [e2, hpf] at hn
+    exact ⟨(Except.ok.inj hn.1).symm, (Except.ok.inj hn.2.1).symm⟩
+
+/-- 'fa', 'md' -/
+def faName : Name := [102, 97]
+def mdName : Name := [109, 100]
+
+/-- why the loop must fill a ZERO table (`np.zeros(10, 'S20')`) and replace the whole field: writing the
+    names of a tractogram with the single per-point array 'fa' straight into the table inherited from a
+    header that named 'fa' and 'md' leaves 'md' in slot 1, and `load` (count 1) then reports the extra name
+    'md' with an out-of-range column slice; through the zero table only 'fa' comes back. -/
+theorem name_table_inplace_counterexample :
+    ∃ stale t, nameTable [(faName, 1), (mdName, 1)] = .ok stale ∧
+      nameTableInto stale [(faName, 1)] = .ok t ∧
+      nameSlices 1 t scalarsName = .ok [(faName, 0, 1), (mdName, 1, 2)] ∧
+      (∃ t0, nameTableInto zeroFields [(faName, 1)] = .ok t0 ∧ nameSlices 1 t0 scalarsName = .ok [(faName, 0, 1)]) := by
+  exact ⟨_, _, rfl, rfl, rfl, _, rfl, rfl⟩
+
+/-! ### Views -/
+
+/-- **ArraySequence views.**  For every history of indexing steps (slice / list / integer array / boolean
+    mask, each resolved to in-range positions — reversed, permuted, repeated, strided, masked, views of
+    views) and `copy()` calls applied to a valid sequence, the result is a valid view whose elements are
+    exactly what the same history gives on the plain list of elements: indexing picks offsets and lengths,
+    `copy()` gathers the chunks in ELEMENT order. -/
+theorem view_history_items {α} (steps : List ViewStep) : ∀ (v : SeqView α), v.Valid → stepsOk v.lengths.length steps →
+    (v.run steps).Valid ∧ (v.run steps).items = listRun v.items steps := by
+  induction steps with
+  | nil => intro v hv _; exact ⟨hv, rfl⟩
+  | cons s ss ih =>
+    intro v hv hok
+    cases s with
+    | index idxs =>
+      obtain ⟨hi, hrest⟩ := hok
+      have hv' := seqview_index_valid v hv idxs hi
+      have := ih (v.index idxs) hv' (by simpa [SeqView.index] using hrest)
+      simp only [SeqView.run, listRun, List.foldl_cons, SeqView.step, listStep] at this ⊢
+      rw [seqview_index_items v hv.1 idxs hi] at this
+      exact this
+    | copy =>
+      have hc : v.copy.Valid := by rw [seqview_copy_eq v hv]; exact seqview_ofLists_valid _
+      have := ih v.copy hc (by simpa [SeqView.copy, stepsOk] using hok)
+      simp only [SeqView.run, listRun, List.foldl_cons, SeqView.step, listStep] at this ⊢
+      rw [seqview_copy_items v hv] at this
+      exact this
+
+/-- what both `save` methods iterate over (`to_world(lazy=True)` → `from_tractogram` →
+    `streamlines.copy()`) for a tractogram BUILT by any such history from freshly constructed streamlines `l`
+    is the list the history denotes — same number, same order, same points. -/
+theorem save_view_roundtrip {α} (l : List (List α)) (steps : List ViewStep) (hok : stepsOk l.length steps) :
+    savedStreamlines ((SeqView.ofLists l).run steps) = listRun l steps := by
+  have h := view_history_items steps (SeqView.ofLists l) (seqview_ofLists_valid l) (by simpa [SeqView.ofLists] using hok)
+  rw [savedStreamlines, seqview_copy_items _ h.1, h.2, seqview_ofLists_items]
+
+/-- TCK round trip of a tractogram that is a VIEW (any history of in-range indexing / copy steps over
+    non-empty streamlines without all-NaN points): for every buffer size the reader yields exactly the
+    selected streamlines in the selected order, bit for bit. -/
+theorem tck_view_roundtrip (c : Nat) (hc : 0 < c) (off : Nat) (l : List (List Triple)) (steps : List ViewStep)
+    (hok : stepsOk l.length steps) (hne : ∀ s ∈ l, s ≠ []) (h : ∀ s ∈ l, ∀ t ∈ s, isDelim t = false)
+    (hsel : ∀ s ∈ listRun l steps, s ∈ l) :
+    (tckRead c 0 off (tckData (savedStreamlines ((SeqView.ofLists l).run steps)))).items.map (·.1) = listRun l steps ∧
+    (tckRead c 0 off (tckData (savedStreamlines ((SeqView.ofLists l).run steps)))).err = none := by
+  rw [save_view_roundtrip l steps hok]
+  have := tck_roundtrip c hc off (listRun l steps) (fun s hs => h s (hsel s hs))
+  refine ⟨?_, this.2⟩
+  rw [this.1, List.filter_eq_self]
+  intro s hs
+  have := hne s (hsel s hs)
+  cases s <;> simp_all
+
+
+/-- non-vacuity: a supplied header with stale counts and a stale name in every slot; a reversing view of
+    three streamlines of unequal lengths followed by a copy and a second selection -/
+example : (⟨5, 2, 1, List.replicate 10 (faName ++ List.replicate 18 0), zeroFields⟩ : TrkCounts).scalarFields ≠ zeroFields := by
+  decide
+
+example : stepsOk 3 [.index [2, 0, 1], .copy, .index [1, 1]] := by simp [stepsOk]
+
+example : ((SeqView.ofLists [[1], [2, 3], [4, 5, 6]]).run [.index [2, 0, 1]]).offsets = [3, 0, 1] ∧
+    savedStreamlines ((SeqView.ofLists [[1], [2, 3], [4, 5, 6]]).run [.index [2, 0, 1]]) = [[4, 5, 6], [1], [2, 3]] := by
+  decide
+
+/-- **TRK round trip of a VIEW of a tractogram, under every supplied header.**  A tractogram is built fresh from
+    `items` (uniform schema, hypotheses of `trk_roundtrip`), then indexed by any in-range positions `idxs` (slice /
+    list / integer array / mask: reversed, permuted, repeated, strided) — every array of the result is a view that
+    shares the original buffers.  What `save` iterates over (`from_tractogram`: `streamlines.copy()` zipped with
+    the data views) is exactly the selected items in the selected order, and saving it under ANY supplied header and
+    loading returns those items: same count, order, points, data under the same names and no other names. -/
+theorem trk_view_roundtrip (sup : TrkCounts) (pcols scols : List (Name × Nat)) (items : List Item)
+    (sf pf : List (List Nat)) (hp : SchemaOk pcols) (hs : SchemaOk scols)
+    (hsf : nameTable pcols = .ok sf) (hpf : nameTable scols = .ok pf)
+    (hw : ∀ it ∈ items, it.WF pcols scols) (idxs : List Nat) (hi : ∀ i ∈ idxs, i < items.length) :
+    let t := (TractoView.ofItems (pcols.map (·.1)) (scols.map (·.1)) items).index idxs
+    t.savedItems = idxs.map (fun i => items.getD i default) ∧
+    ∃ h words, trkSaveItemsH sup t.savedItems = .ok (h, words) ∧ h.nStreams = idxs.length ∧
+      trkLoadItems h words = .ok (idxs.map (fun i => items.getD i default)) := by
+  intro t
+  have hnp : ∀ it ∈ items, it.dpp.map (·.1) = pcols.map (·.1) := fun it h => (hw it h).2.2.1.names
+  have hns : ∀ it ∈ items, it.dps.map (·.1) = scols.map (·.1) := by
+    intro it h
+    have := (hw it h).2.2.2
+    rw [← this]; simp
+  have hv := tractoview_ofItems_valid (pcols.map (·.1)) (scols.map (·.1)) items
+  have hlen : (TractoView.ofItems (pcols.map (·.1)) (scols.map (·.1)) items).length = items.length := by
+    simp [TractoView.length, TractoView.ofItems, SeqView.ofLists]
+  have hsaved := (tractoview_index_saved _ hv idxs (by intro i h; rw [hlen]; exact hi i h)).2
+  have hitems := tractoview_ofItems_items _ _ items hnp hns hp.2 hs.2
+  have hsel : t.savedItems = idxs.map (fun i => items.getD i default) := by
+    show ((TractoView.ofItems _ _ items).index idxs).savedItems = _
+    rw [hsaved]
+    apply List.map_congr_left
+    intro i hmem
+    have h2 := hi i hmem
+    have : (TractoView.ofItems (pcols.map (·.1)) (scols.map (·.1)) items).items.getD i default = items.getD i default := by
+      rw [hitems]
+    rw [← this]
+    simp [TractoView.items, List.getD_eq_getElem?_getD, hlen, h2]
+  refine ⟨hsel, ?_⟩
+  rw [hsel]
+  have hw' : ∀ it ∈ idxs.map (fun i => items.getD i default), it.WF pcols scols := by
+    intro it hit
+    obtain ⟨i, hmem, rfl⟩ := List.mem_map.mp hit
+    have h2 := hi i hmem
+    have : items.getD i default = items[i] := by simp [List.getD_eq_getElem?_getD, h2]
+    rw [this]; exact hw _ (List.getElem_mem h2)
+  obtain ⟨h, words, h1, h2, h3, _⟩ := trk_roundtrip_any_header sup pcols scols _ sf pf hp hs hsf hpf hw'
+  exact ⟨h, words, h1, by simpa using h2, h3⟩
+
+
+/-- non-vacuity of the view hypotheses: three items, reversed -/
+example : ((TractoView.ofItems [] [] [⟨[(1, 2, 3)], [], []⟩, ⟨[(4, 5, 6), (7, 8, 9)], [], []⟩]).index [1, 0]).savedItems =
+    [⟨[(4, 5, 6), (7, 8, 9)], [], []⟩, ⟨[(1, 2, 3)], [], []⟩] := by decide
 
 end Nb.C16
